@@ -9,7 +9,8 @@ multiple of it, so the float arithmetic of the real loop is exact and equals the
 
 Everything outside the loop is a parameter (`Env`), chosen adversarially:
   * `adv k`   — the k-th `time.time()` of the loop returns a clock that moved on by `adv k + 1 ≥ 1` ticks,
-  * `dur k`, `out k` — duration and outcome of the k-th call of the thread (`doPoll`, `read_*`, `initialReads`, `writeInitParams`),
+  * `dur k`, `out k` — duration and outcome of the k-th call of the thread (`doPoll`, `read_*`, `initialReads`, and every
+                `write_<p>(value)` that `writeInitParams` makes for a start value still to be written),
   * `touch k` — parameter time stamps set while the k-th call ran (`announceUpdate`),
   * `ext k`   — what other threads did to the `PollInfo`s while the k-th call ran (each also sets the trigger event),
   * `wake k`  — the k-th `triggerPoll.wait`: what other threads do while it lasts, as batches `(d, exts)`: `d` ticks after
@@ -63,8 +64,9 @@ inductive Fn
   | doPoll
   | read (p : Nat)
   | init                     -- `initialReads`
-  | write                    -- `writeInitParams`: in the start-up round, and once more behind it (makes up for what a
-                             --   round broken off by a communication failure skipped)
+  | write (p : Nat)          -- `write_<p>(value)`, called by `writeInitParams` for a start value that is still to be
+                             --   written: in the start-up round, and behind it (what a round broken off by a
+                             --   communication failure skipped)
   deriving DecidableEq, Repr, Inhabited
 
 /-- start of a call made by the poll thread: time, module (index in the thread's module list), function, duration -/
@@ -128,6 +130,9 @@ structure PollState where
   /-- ghost (never read by the loop): the latest refresh of a parameter so far — the largest of the time stamps
   it received and of the start times of the poller's `read_*` calls for it -/
   refreshed : Nat → Nat → Nat
+  /-- `mobj.writeDict` per module (index in the thread's list): the parameters with a start value (from the
+  configuration or the parameter definition) that is still to be written, in dictionary order -/
+  pending : Nat → List Nat
 
 /-- `wait_time = 999` in ticks is a parameter of the model (generated from the source) -/
 structure Consts where
@@ -370,15 +375,35 @@ structure ProRes where
   evs : List Event
   aborted : Bool            -- a `CommunicationFailedError` ended the initial round
 
-/-- `mobj.writeInitParams(); mobj.initialReads()` for every module of the thread: two calls.  `writeInitParams` contains
-its own errors (its outcome is not looked at) and is not a poll function.  A `CommunicationFailedError` in `initialReads`
-aborts the round, every other exception is logged (after `fix: an exception in initialReads …`). -/
+/-- `self.writeDict.pop(pname, Done)` for module `i` -/
+def popPending (pd : Nat → List Nat) (i p : Nat) : Nat → List Nat :=
+  fun j => if j = i then (pd j).erase p else pd j
+
+/-- the body of `for pname in list(self.writeDict):` of `writeInitParams` (844-868) over the names `ps`: the entry is taken
+out of `writeDict`, then `write_<p>(value)` is called — a call like any other of the thread (it takes time, sets time
+stamps, other threads act meanwhile; writing `pollinterval` runs `PollInfo.update_interval`, which reaches the model as
+an action `ext`).  Whatever it raises — SECoP error, silent or not, or any other exception — is logged there: the outcome
+is not looked at.  Nothing else is called: in particular NO read function, polled or not. -/
+def writeParams (env : Env) (i : Nat) : List Nat → PollState → List Event → StepRes
+  | [], σ, evs => ⟨σ, evs⟩
+  | p :: ps, σ, evs =>
+    let r := call env { σ with pending := popPending σ.pending i p } i (.write p)
+    writeParams env i ps r.σ (evs ++ [r.ev])
+
+/-- `mobj.writeInitParams()` for module `i` of the thread's list: every start value still to be written, in the order
+of `writeDict`.  (A module with nothing left makes no call at all.) -/
+def writeInit (env : Env) (σ : PollState) (i : Nat) (evs : List Event) : StepRes :=
+  writeParams env i (σ.pending i) σ evs
+
+/-- `mobj.writeInitParams(); mobj.initialReads()` for every module of the thread: the start values, then one call.
+`writeInitParams` contains the errors of the write functions and is not a poll function.  A `CommunicationFailedError` in
+`initialReads` aborts the round, every other exception is logged (after `fix: an exception in initialReads …`). -/
 def initAll (env : Env) : List Nat → PollState → List Event → ProRes
   | [], σ, evs => ⟨σ, evs, false⟩
   | i :: is, σ, evs =>
-    let w := call env σ i .write
+    let w := writeInit env σ i evs
     let r := call env w.σ i .init
-    if r.out = .comm then ⟨r.σ, evs ++ [w.ev] ++ [r.ev], true⟩ else initAll env is r.σ (evs ++ [w.ev] ++ [r.ev])
+    if r.out = .comm then ⟨r.σ, w.evs ++ [r.ev], true⟩ else initAll env is r.σ (w.evs ++ [r.ev])
 
 /-- `mobj.callPollFunc(rfunc, raise_com_failed=True)` for every polled parameter -/
 def readAll (env : Env) : List Entry → PollState → List Event → ProRes
@@ -402,14 +427,14 @@ def startupRound (c : Consts) (env : Env) (σ : PollState) : ProRes :=
     if r2.aborted then ⟨waitEvent env r2.σ c.startupWait, r2.evs, true⟩ else r2
 
 /-- `for mobj in modules: mobj.writeInitParams()` behind the start-up round (`fix: start values skipped by a communication
-failure at startup are written before polling starts`): one call per module of the thread, polled or not.  It takes
-time, other threads act meanwhile; whatever a write function raises ends inside `writeInitParams`, so the outcome is not
-looked at.  (For a module whose values are already written it returns at once: duration 0 in the recorded environments.) -/
+failure at startup are written before polling starts`): for every module of the thread, polled or not, what is still in
+its `writeDict`.  The writes take time, other threads act meanwhile; whatever a write function raises ends inside
+`writeInitParams`.  (For a module the round has reached nothing is left: no call.) -/
 def lateAll (env : Env) : List Nat → PollState → List Event → StepRes
   | [], σ, evs => ⟨σ, evs⟩
   | i :: is, σ, evs =>
-    let r := call env σ i .write
-    lateAll env is r.σ (evs ++ [r.ev])
+    let r := writeInit env σ i evs
+    lateAll env is r.σ r.evs
 
 /-- everything before `while modules:` — the start-up round, then (after the start-up callback, which is not a call of
 the model) the configured values once more -/
@@ -428,10 +453,11 @@ def startMod (enabled : Bool) (slow : Nat) (polled : List Nat) (pollinterval : N
     fast := false, lastMain := 0, lastSlow := 0, lastStart := 0 }
 
 /-- the state in which the thread body begins: nothing read or called yet, the event clear, `to_poll = ()`;
-the ghost `refreshed` starts as the time stamps the parameters already carry -/
-def startState (clock : Nat) (mods : List Mod) (stamp : Nat → Nat → Nat) : PollState :=
+the ghost `refreshed` starts as the time stamps the parameters already carry; `pending` = what module initialisation
+has put into each `writeDict` -/
+def startState (clock : Nat) (mods : List Mod) (stamp : Nat → Nat → Nat) (pending : Nat → List Nat) : PollState :=
   { clock := clock, nRead := 0, nCall := 0, nWait := 0, trig := false, mods := mods, toPoll := none,
-    stamp := stamp, refreshed := stamp }
+    stamp := stamp, refreshed := stamp, pending := pending }
 
 /-- the whole thread body for `n` turns of the loop -/
 def thread (c : Consts) (env : Env) (n : Nat) (σ : PollState) : TurnRes :=
